@@ -27,7 +27,8 @@ functions mirroring go1.23 / rare, and `match_eq_spec`, `match_sound`, `match_ba
 `walk_each_regular_file_once`, `plan_mentions` say what they compute.
 
 * `plan_once_per_mention`, `plan_stdin` – what is opened, and how often.
-* Part 3 (end of the file): `gzip_decoded_faithfully`, `gzip_truncated_counted`, `gzip_trailing_garbage_counted`,
+* Part 3 (end of the file): `gzip_run_is_model`, `gzip_decoded_faithfully`, `gzip_truncated_counted`,
+  `gzip_truncated_multi_counted` (several members, every cut point), `gzip_trailing_garbage_counted`,
   `gzip_cut_in_header_is_plain` – the gzip reader (header, DEFLATE, trailer, member loop) is a Lean function of the
   file's bytes; `dispatch_matches_source`, `dispatch_usage_iff`, `dispatch_reader`, `dispatch_plain` – the flag
   plumbing of `BuildBatcherFromArguments`.
@@ -1083,6 +1084,69 @@ theorem gzip_trailing_garbage_counted (name : Path) (m : Gz.Hdr × List Bytes) (
   · rw [h1]; simp [FileOracle.ofBytes, gzAnswers, hg]
   · rw [h2]; simp [FileOracle.ofBytes, gzAnswers, hg]
 
+/-- **`rare -z` on ANY file content is the model's `gunzip` of those bytes**: when `gzip.NewReader` refuses the content
+    (`gunzip = none`) the lines of the content itself are handed on and nothing is counted; otherwise the lines of what
+    the decoder delivers, and one read error iff the stream did not end with `io.EOF`. -/
+theorem gzip_run_is_model (name : Path) (s : Bytes) :
+    (runFile true name (FileOracle.ofBytes s)).lines
+      = C04.splitLines (match Gz.gunzip s with | some (d, _) => d | none => s) ∧
+    (runFile true name (FileOracle.ofBytes s)).errs = (match Gz.gunzip s with | some (_, true) => 1 | _ => 0) := by
+  cases hr : Gz.readHeaderRest s with
+  | error e =>
+    have hg : Gz.gunzip s = none := by simp [Gz.gunzip, hr]
+    have hh : (FileOracle.ofBytes s).gzHeaderOk = false := by
+      show Gz.headerOk s = false
+      simp [Gz.headerOk, Gz.readHeader, hr]
+    obtain ⟨_, h2, h3, _⟩ := gunzip_fallback name (FileOracle.ofBytes s) rfl rfl hh
+    rw [h2, h3, hg]
+    exact ⟨rfl, rfl⟩
+  | ok r =>
+    have hg : Gz.gunzip s = some (Gz.gunzipFrom (s.length + 1) r) := by simp [Gz.gunzip, hr]
+    have hh : (FileOracle.ofBytes s).gzHeaderOk = true := by
+      show Gz.headerOk s = true
+      simp [Gz.headerOk, Gz.readHeader, hr]
+    obtain ⟨h1, h2⟩ := gunzip_decodes name (FileOracle.ofBytes s) rfl hh
+    rw [h1, h2, hg]
+    simp only [FileOracle.ofBytes, gzAnswers, hg]
+    generalize Gz.gunzipFrom (s.length + 1) r = p
+    obtain ⟨d, e⟩ := p
+    cases e <;> simp
+
+/-- **A truncated file of SEVERAL gzip members is a read error at every cut point except exactly between two members.**
+    `ms` are the members (`cat a.gz b.gz`, stored blocks, any accepted headers), `k` any cut point that leaves the first
+    header intact (`gzip_cut_in_header_is_plain` otherwise).  `k` falls into some member `m` at offset `j`, after the
+    complete members `ms1`: the lines of `ms1`'s data and of a PREFIX of `m`'s data are handed on, and the input is
+    counted once as a read error – inside `m`'s header as well as inside its DEFLATE stream or trailer – unless `j = 0`:
+    a file that ends with a complete member IS a complete gzip file, nothing can tell it was longer. -/
+theorem gzip_truncated_multi_counted (name : Path) (ms : List (Gz.Hdr × List Bytes)) (hms : Gz.MembersOk ms) (k : Nat)
+    (hk1 : ∀ m, ms.head? = some m → m.1.encode.length ≤ k) (hk2 : k < (Gz.fileStored ms).length) :
+    ∃ (ms1 : List (Gz.Hdr × List Bytes)) (m : Gz.Hdr × List Bytes) (ms2 : List (Gz.Hdr × List Bytes)) (j : Nat) (d : Bytes),
+      ms = ms1 ++ m :: ms2 ∧ k = (Gz.fileStored ms1).length + j ∧ j < (Gz.memberStored m.1 m.2).length ∧
+      d <+: m.2.flatten ∧
+      (runFile true name (FileOracle.ofBytes ((Gz.fileStored ms).take k))).lines = C04.splitLines (Gz.fileData ms1 ++ d) ∧
+      (runFile true name (FileOracle.ofBytes ((Gz.fileStored ms).take k))).errs = (if j = 0 then 0 else 1) := by
+  obtain ⟨ms1, m, ms2, j, h1, h2, h3, h4⟩ := Gz.fileStored_cut_decompose ms k hk2
+  have hms' : Gz.MembersOk (ms1 ++ [m]) := by
+    intro x hx
+    apply hms x
+    rw [h1]
+    simp only [List.mem_append, List.mem_cons, List.not_mem_nil, or_false] at hx ⊢
+    rcases hx with hx | hx
+    · exact Or.inl hx
+    · exact Or.inr (Or.inl hx)
+  have hfirst : ms1 = [] → m.1.encode.length ≤ j := by
+    intro e
+    subst e
+    have := hk1 m (by rw [h1]; rfl)
+    simp only [Gz.fileStored, List.length_nil, Nat.zero_add] at h2
+    omega
+  obtain ⟨d, hd, hg⟩ := Gz.gunzip_cut_file ms1 m hms' j h3 hfirst
+  obtain ⟨r1, r2⟩ := gzip_run_is_model name ((Gz.fileStored ms).take k)
+  refine ⟨ms1, m, ms2, j, d, h1, h2, h3, hd, ?_, ?_⟩
+  · rw [r1, h4, hg]
+  · rw [r2, h4, hg]
+    by_cases hj : j = 0 <;> simp [hj]
+
 /-- the hypotheses of the three theorems above are satisfiable: two members (one with a name and a header CRC, in two
     blocks, one of them empty), a cut inside the second block's data, a trailing newline as garbage -/
 example : Gz.MembersOk [(⟨0x0a, [0, 0, 0, 0, 0, 3], [], [97], []⟩, [[104, 105, 10], [], [120, 10]]), (⟨0, [0, 0, 0, 0, 0, 3], [], [], []⟩, [[]])] ∧
@@ -1096,6 +1160,16 @@ example : Gz.MembersOk [(⟨0x0a, [0, 0, 0, 0, 0, 3], [], [97], []⟩, [[104, 10
     · exact ⟨⟨rfl, by decide, ⟨by decide, by decide⟩, ⟨by decide, by decide⟩⟩, by decide, by decide⟩
   · intro r h
     simp [Gz.readHeaderRest, Gz.readFull] at h
+
+/-- `gzip_truncated_multi_counted` on a file of two members (`hi\n` and `x\n`): cut inside the second member's header
+    (26 + 4, 26 + 1 bytes), at the member boundary (26 bytes: complete file, no error), inside the second member's block
+    header and inside its trailer -/
+example :
+    let f := Gz.fileStored [(⟨0, [0, 0, 0, 0, 0, 3], [], [], []⟩, [[104, 105, 10]]), (⟨0, [0, 0, 0, 0, 0, 3], [], [], []⟩, [[120, 10]])]
+    f.length = 51 ∧ Gz.gunzip (f.take 30) = some ([104, 105, 10], true) ∧ Gz.gunzip (f.take 27) = some ([104, 105, 10], true) ∧
+    Gz.gunzip (f.take 26) = some ([104, 105, 10], false) ∧ Gz.gunzip (f.take 38) = some ([104, 105, 10], true) ∧
+    Gz.gunzip (f.take 50) = some ([104, 105, 10, 120, 10], true) ∧ Gz.gunzip f = some ([104, 105, 10, 120, 10], false) := by
+  decide +kernel
 
 /-- Huffman blocks, checked by the kernel on two real files (`gzip -9`): a fixed-Huffman block with a match, and a
     dynamic-Huffman block (code length code, repeat codes, two code tables) of 150 bytes of text -/
